@@ -35,6 +35,10 @@ PROP = dict(
         "collision-freedom is needed: the statements are equalities of hashes, not injectivity claims",
         "supported trees (`plain`): well-formed, level 0 throughout, ordinary and library cells only - what pruneCells "
         "supports and what a dictionary is; trees containing pruned/Merkle cells are covered by model = code only",
+        "ProveKeyInHashmap is modelled with the prover's root and the `cell` argument being the same tree with fresh "
+        "read cursors (what its only sensible use is; the harness resets the root's counters between calls); the key "
+        "comparison by ToFiftHex strings is modelled as bit-list equality - justified by fifthex_key_compare for bit "
+        "strings satisfying C06's invariant",
         "the value type of ProveKeyInHashmap is modelled as 'read valueBits bits' (tlb.Uint8/32/64, Bits256 in the "
         "harness); other decoders are C03/C05's subject",
         "absent_key_errors / value_revealed use a minimal lookup (dictLookup) on arbitrary trees; "
@@ -42,9 +46,11 @@ PROP = dict(
         "decoder for trees that are valid dictionaries",
     ],
     partial=[
-        "proof_boc is proved modulo ONE premise about the writer: the order in which SerializeBoc writes the proof's "
-        "cells is a valid layout whose row 0 unfolds to the proof (C01.order_valid: importCell/reorderCells are not "
-        "modelled); the correspondence compares the PARSED real proof bytes with the model's cell on every run",
+        "proof_boc goes through the model of the WHOLE Go writer (C01.roundtrip_go_writer: importCell/reorderCells order "
+        "= C01.order_valid, header arithmetic, C07 reader). Two premises remain: a table presentation of the proof's "
+        "in-memory cells exists (agent boc's roundtrip_cell / Cell.toTable discharges it) and C01's KeyInjOn (the "
+        "de-duplication key - the hex representation hash - separates structurally different rows: collision-freedom). "
+        "proof_boc_layout is the weaker statement for an arbitrary given layout",
         "prove_no_panic needs noSingleRef (no cell with exactly one ref): on a malformed fork with one ref "
         "ProveKeyInHashmap panics in Cursor.Ref(1) (modelled, compared; outside 'all dictionaries')",
     ],
@@ -61,7 +67,7 @@ PROP = dict(
                "limit; absent_key_errors - if the TON dictionary lookup of the key fails, ProveKeyInHashmap returns no "
                "proof; value_revealed - for a returned (value, proof): the lookup in the ORIGINAL finds a leaf starting "
                "with the value and the same lookup in the proof's child finds the same leaf data (the path is never "
-               "pruned); prove_no_panic; value_revealed_dict / absent_key_errors_dict - the same in terms of agent dict's model "
+               "pruned); prove_no_panic; walk_fuel_sufficient (the model's fuel is never exhausted, so errors are genuine); fifthex_key_compare; value_revealed_dict / absent_key_errors_dict - the same in terms of agent dict's model "
                "(C05): for the cell tree of ANY valid TON dictionary of any key width, the library's Hashmap decoder on the "
                "proof's child returns exactly [(key, val)] with get key of the dictionary's meaning = some val, and an "
                "absent key gets no proof; proof_boc - the bytes written for the proof (agent boc's writer model, C01) "
